@@ -30,7 +30,7 @@ def run(tier, seed):
     vlib.require(rep_b["nontrivial"] > 50 and rep_e["nontrivial"] > 50, "history replay too small")
     v.assumptions += [
         "in the history stages time is modelled by explicit discards (discard_regex on every entry) and by an aggressive discard policy (1ns/0); the RegexCache stage runs with real sleeps (2 ms ticks) and validates the recorded clock readings and debug reports against spec/RegexCache.tla with interval time (uncertain comparisons allow both outcomes, so machine load cannot cause an alarm)",
-        "the allocator is nondeterministic in the model; on the real code the harness cannot force an address reuse, so a stale-regex defect shows only when the allocator happens to reuse (it did on the pre-fix tree)",
+        "the allocator is nondeterministic in the model; on the real code the harness's global allocator hands a freed block of the size of a shared rule to the next request of that size (last in, first out), which is the resolution under which a cache entry that outlives its rule is always met again",
         "add_filter / optimize are Blocker-level (Engine exposes no rule mutation); serialize/deserialize are Engine-level; removeparam rules are kept out of the serialized pool (open finding wireDropsRemoveparam, C08)",
     ]
     vlib.scale_stage(v, wd, "C06")
